@@ -1,6 +1,6 @@
 # fragment loaded by props.py (reg, ENGINES, POST, CRASHKEY, NOT_CLAIMED are injected)
-ENGINES['h_control'] = ('C++ harness: eight control-planner variants x three harness-owned dynamical systems (first-order '
-                        'point, kinematic car on SE(2), Euler double integrator) in generated obstacle worlds; every '
+ENGINES['h_control'] = ('C++ harness: eight control-planner variants x four harness-owned dynamical systems (first-order '
+                        'point, kinematic car on SE(2), Euler double integrator, point robot with a discrete control space) in generated obstacle worlds; every '
                         'registered PathControl is replayed step by step with the harness\'s own propagator; ASan+UBSan build')
 
 _PLANNERS = ['RRT', 'RRT-intermediate', 'SST', 'EST', 'KPIECE1', 'PDST', 'SyclopRRT', 'SyclopEST']
@@ -20,6 +20,11 @@ def _floors(per_planner, per_combo, controls, steps, exact, approx, creeping, co
     for p in _PLANNERS:
         if p != 'PDST':   # PDST returns at once when it already holds an exact solution
             f['c02_paths_registered_after_exact_solution:' + p] = cont // 36
+    # the fourth system (discrete control space with a non-zero lower bound) has its own block of cases
+    f['c02_cases_discrete_control_system'] = per_planner * 2 // 3
+    f['c02_discrete_controls_checked'] = controls // 14
+    for p in _PLANNERS:
+        f['c02_replayed:%s:pointd' % p] = per_combo // 4
     for p in _PLANNERS:
         f['c02_replayed:' + p] = per_planner
         f['c02_solutions_exact:' + p] = exact
@@ -31,7 +36,8 @@ def _floors(per_planner, per_combo, controls, steps, exact, approx, creeping, co
 
 reg('C02', engine='h_control',
     rule='one case = one control planner variant (RRT, RRT-intermediate, SST, EST, KPIECE1, PDST, SyclopRRT, SyclopEST) on '
-         'one generated system (point / car / Euler double integrator; control bounds, step size, min/max duration, '
+         'one generated system (point / car / Euler double integrator, plus a block of cases on a point robot steered through a '
+         'DiscreteControlSpace with a non-zero lower bound; control bounds, step size, min/max duration, '
          'directed-sampler k drawn; 3% "creeping" systems whose propagation steps are closer than float epsilon) in one '
          'generated obstacle world with drawn start(s)/goal/threshold, planner '
          'parameters and library seed, run under an evaluation-count termination condition; 1 of 3 cases drives the same planner '
